@@ -166,6 +166,75 @@ func (f *failures) add(class, format string, a ...interface{}) {
 	f.list = append(f.list, [2]string{class, fmt.Sprintf(format, a...)})
 }
 
+// forEach calls the concrete ForEach (direct call: the callback closure stays on the stack).
+func forEach(t reader, fn func(k, v []byte) bool) {
+	switch x := t.(type) {
+	case *database.VerifTreapMutable:
+		x.ForEach(fn)
+	case *database.VerifTreapImmutable:
+		x.ForEach(fn)
+	default:
+		t.ForEach(fn)
+	}
+}
+
+// contentsLean: Len, Size, Has/Get on the four universe keys and on one absent probe, ForEach
+// order. Used for the re-reads of retained versions (millions per second).
+func contentsLean(t *database.VerifTreapImmutable, m model, rot int) string {
+	if t.Len() != m.count() {
+		return "len"
+	}
+	if t.Size() != m.size() {
+		return "size"
+	}
+	for i := range keys {
+		if t.Has(keys[i]) != (m[i] >= 0) {
+			return "has"
+		}
+		if !valueOK(t.Get(keys[i]), m[i]) {
+			return "get"
+		}
+	}
+	p := probes[(rot%5)*2] // a, c, e, g, i: never present
+	if t.Has(p) || t.Get(p) != nil {
+		return "get-absent"
+	}
+	j, bad := 0, false
+	t.ForEach(func(k, v []byte) bool {
+		for j < 4 && m[j] < 0 {
+			j++
+		}
+		if j >= 4 || !bytes.Equal(k, keys[j]) || !valueOK(v, m[j]) {
+			bad = true
+			return false
+		}
+		j++
+		return true
+	})
+	for j < 4 && m[j] < 0 {
+		j++
+	}
+	if bad || j != 4 {
+		return "foreach"
+	}
+	return ""
+}
+
+// readLean: contentsLean + one forward and one backward full pass with the iterator that was
+// created together with the version.
+func readLean(t *database.VerifTreapImmutable, m model, e []int, it *database.VerifTreapIterator, rot int) string {
+	if c := contentsLean(t, m, rot); c != "" {
+		return "contents|" + c
+	}
+	if c := forward(it, it.First(), m, e); c != "" {
+		return "iter|" + c
+	}
+	if c := backward(it, it.Last(), m, e); c != "" {
+		return "iter|" + c
+	}
+	return ""
+}
+
 // contents: Len, Size, Has/Get on every probe, ForEach order + early stop.
 func contents(t reader, m model) string {
 	if t.Len() != m.count() {
@@ -189,7 +258,7 @@ func contents(t reader, m model) string {
 	var e [4]int
 	n := m.within(rng{}, &e)
 	j, bad := 0, false
-	t.ForEach(func(k, v []byte) bool {
+	forEach(t, func(k, v []byte) bool {
 		if j >= n || !bytes.Equal(k, keys[e[j]]) || !valueOK(v, m[e[j]]) {
 			bad = true
 			return false
@@ -202,7 +271,7 @@ func contents(t reader, m model) string {
 	}
 	if n > 0 {
 		calls := 0
-		t.ForEach(func(k, v []byte) bool { calls++; return false })
+		forEach(t, func(k, v []byte) bool { calls++; return false })
 		if calls != 1 {
 			return "foreach-stop"
 		}
